@@ -287,6 +287,27 @@ Qed.
 Section Frame.
   Variable g : graph.
   Variable x : nat.
+  (** [lax = false]: the record of [x] is untouched; [lax = true]: its job ids and restart
+      count are untouched and its status is the old one or RUNNING (a RUNNING report) *)
+  Variable lax : bool.
+
+  Definition recrel (r r' : rec) : Prop :=
+    if lax then jobs r' = jobs r /\ restarts r' = restarts r /\ (status r' = status r \/ status r' = RUNNING)
+    else r' = r.
+  Lemma recrel_refl r : recrel r r.
+  Proof. unfold recrel. destruct lax; auto. Qed.
+  Lemma recrel_eq r r' : r' = r -> recrel r r'.
+  Proof. intros ->. apply recrel_refl. Qed.
+  Lemma recrel_trans a b d : recrel a b -> recrel b d -> recrel a d.
+  Proof.
+    unfold recrel. destruct lax; [|congruence].
+    intros (A1 & A2 & A3) (B1 & B2 & B3). splits; try congruence.
+    destruct B3 as [B3|B3]; [rewrite B3; exact A3 | right; exact B3].
+  Qed.
+  Lemma recrel_status a b : recrel a b -> status a <> INITIALIZED -> status b <> INITIALIZED.
+  Proof.
+    unfold recrel. destruct lax; [|congruence]. intros (_ & _ & [A|A]) H; rewrite A; [exact H|discriminate].
+  Qed.
 
   (** [y] may be executed / swept without touching [x] *)
   Definition away (y : nat) : Prop := y <> x /\ ~ In x (bfs_subtree g y).
@@ -294,7 +315,7 @@ Section Frame.
   (** [s'] agrees with [s] on everything that concerns [x]; completed steps stay
       completed; whatever was queued is away from [x] *)
   Record ok_step (s s' : st) : Prop := {
-    os_rec : getrec s' x = getrec s x;
+    os_rec : recrel (getrec s x) (getrec s' x);
     os_comp : In x (completed s') <-> In x (completed s);
     os_inp : In x (inprog s') <-> In x (inprog s);
     os_fail : In x (failed s') <-> In x (failed s);
@@ -304,11 +325,12 @@ Section Frame.
     os_new : forall z, In z (ready s') -> In z (ready s) \/ away z }.
 
   Lemma ok_step_refl s : ok_step s s.
-  Proof. constructor; try tauto; auto using incl_refl. Qed.
+  Proof. constructor; try tauto; auto using incl_refl, recrel_refl. Qed.
 
   Lemma ok_step_trans a b d : ok_step a b -> ok_step b d -> ok_step a d.
   Proof.
-    intros [A1 A2 A3 A4 A5 A6 A7 A8] [B1 B2 B3 B4 B5 B6 B7 B8]. constructor; try congruence; try tauto.
+    intros [A1 A2 A3 A4 A5 A6 A7 A8] [B1 B2 B3 B4 B5 B6 B7 B8]. constructor; try tauto.
+    - eapply recrel_trans; eauto.
     - eapply incl_tran; eauto.
     - intros z Hz. destruct (B8 z Hz); auto.
   Qed.
@@ -318,7 +340,7 @@ Section Frame.
     completed s' = completed s -> inprog s' = inprog s -> failed s' = failed s -> cancelled s' = cancelled s ->
     ready s' = ready s -> ok_step s s'.
   Proof.
-    intros E0 E1 E2 E3 E4 E5. constructor; rewrite ?E1, ?E2, ?E3, ?E4, ?E5; try tauto; auto using incl_refl.
+    intros E0 E1 E2 E3 E4 E5. constructor; rewrite ?E1, ?E2, ?E3, ?E4, ?E5; try tauto; auto using incl_refl, recrel_eq.
   Qed.
 
   Lemma os_set_status y v s : y <> x -> ok_step s (rec_set_status y v s).
@@ -344,39 +366,39 @@ Section Frame.
 
   Lemma os_completed_add y s : y <> x -> ok_step s (completed_add y s).
   Proof.
-    intros H. constructor; unfold completed_add; sp; try reflexivity; try tauto.
+    intros H. constructor; unfold completed_add; sp; try apply recrel_refl; try tauto.
     - setsimp. intuition congruence.
     - intros z Hz. setsimp. auto.
   Qed.
   Lemma os_inprog_add y s : y <> x -> ok_step s (inprog_add y s).
   Proof.
-    intros H. constructor; unfold inprog_add; sp; try reflexivity; try tauto; auto using incl_refl.
+    intros H. constructor; unfold inprog_add; sp; try apply recrel_refl; try tauto; auto using incl_refl.
     setsimp. intuition congruence.
   Qed.
   Lemma os_inprog_remove y s : y <> x -> ok_step s (inprog_remove y s).
   Proof.
-    intros H. constructor; unfold inprog_remove; sp; try reflexivity; try tauto; auto using incl_refl.
+    intros H. constructor; unfold inprog_remove; sp; try apply recrel_refl; try tauto; auto using incl_refl.
     setsimp. intuition congruence.
   Qed.
   Lemma os_failed_add y s : y <> x -> ok_step s (failed_add y s).
   Proof.
-    intros H. constructor; unfold failed_add; sp; try reflexivity; try tauto; auto using incl_refl.
+    intros H. constructor; unfold failed_add; sp; try apply recrel_refl; try tauto; auto using incl_refl.
     setsimp. intuition congruence.
   Qed.
   Lemma os_cancelled_add y s : y <> x -> ok_step s (cancelled_add y s).
   Proof.
-    intros H. constructor; unfold cancelled_add; sp; try reflexivity; try tauto; auto using incl_refl.
+    intros H. constructor; unfold cancelled_add; sp; try apply recrel_refl; try tauto; auto using incl_refl.
     setsimp. intuition congruence.
   Qed.
   Lemma os_ready_push y s : away y -> ok_step s (ready_push y s).
   Proof.
-    intros H. pose proof H as [H1 H2]. constructor; unfold ready_push; sp; try reflexivity; try tauto; auto using incl_refl.
+    intros H. pose proof H as [H1 H2]. constructor; unfold ready_push; sp; try apply recrel_refl; try tauto; auto using incl_refl.
     - setsimp. intuition congruence.
     - intros z Hz. setsimp. destruct Hz as [Hz|[->|[]]]; auto.
   Qed.
   Lemma os_pop y rest s : ready s = y :: rest -> y <> x -> ok_step s (set_ready s rest).
   Proof.
-    intros E H. constructor; sp; try reflexivity; try tauto; auto using incl_refl; rewrite E; cbn.
+    intros E H. constructor; sp; try apply recrel_refl; try tauto; auto using incl_refl; rewrite E; cbn.
     - intuition.
     - auto.
   Qed.
@@ -462,7 +484,17 @@ Section Frame.
 
   (** one report: quiet if it is [x]'s own, else about a step away from [x] *)
   Definition rep_ok (r : nat * option State) : Prop :=
-    (fst r = x -> quiet (snd r) = true) /\ (fst r <> x -> ~ In x (bfs_subtree g (fst r))).
+    (fst r = x -> quiet (snd r) = true \/ (lax = true /\ snd r = Some RUNNING)) /\
+    (fst r <> x -> ~ In x (bfs_subtree g (fst r))).
+
+  Lemma os_set_running s : lax = true -> ok_step s (rec_set_status x RUNNING s).
+  Proof.
+    intros L. constructor; try (cbn; tauto); auto using incl_refl.
+    unfold recrel. rewrite L. splits.
+    - apply jobs_set_status.
+    - apply restarts_set_status.
+    - apply status_set_status.
+  Qed.
 
   Lemma os_handle_report c s cl ca r : rep_ok r -> ~ In x cl -> ~ In x ca ->
     let '(s', cl', ca') := handle_report_gen c g (s, cl, ca) r in
@@ -470,7 +502,9 @@ Section Frame.
   Proof.
     intros [R1 R2] Hcl Hca. destruct r as [y o]. cbn [fst snd] in *.
     destruct (Nat.eq_dec y x) as [->|Hn].
-    { rewrite handle_quiet by auto. split; [apply ok_step_refl|auto]. }
+    { destruct (R1 eq_refl) as [Q|[L ->]].
+      - rewrite handle_quiet by auto. split; [apply ok_step_refl|auto].
+      - cbn. split; [apply os_set_running; exact L|auto]. }
     specialize (R2 Hn).
     assert (Hu : forall l, ~ In x l -> ~ In x (set_union (bfs_subtree g y) l)).
     { intros l Hl. rewrite In_set_union. tauto. }
@@ -518,7 +552,7 @@ Section Frame.
   Lemma guard_step s s' : guard s -> ok_step s s' -> guard s'.
   Proof.
     intros [A B C] O. constructor.
-    - rewrite (os_rec _ _ O). exact A.
+    - eapply recrel_status; [apply (os_rec _ _ O)|exact A].
     - intros a Ha Hx. apply (os_mono _ _ O). auto.
     - intros y Hy. destruct (os_new _ _ O y Hy); auto.
   Qed.
@@ -609,10 +643,10 @@ Proof.
       exact (i_dj_cr g s I y (Hanc y Hn Hin) Hy).
 Qed.
 
-Lemma Inv_rep_ok g s x reps : WF g -> Inv g s -> In x (inprog s) ->
+Lemma Inv_rep_ok g s x lax reps : WF g -> Inv g s -> In x (inprog s) ->
   (forall r, In r reps -> In (fst r) (inprog s)) ->
-  (forall o, In (x, o) reps -> quiet o = true) ->
-  Forall (rep_ok g x) reps.
+  (forall o, In (x, o) reps -> quiet o = true \/ (lax = true /\ o = Some RUNNING)) ->
+  Forall (rep_ok g x lax) reps.
 Proof.
   intros W I Hx Hv Hq. apply Forall_forall. intros [y o] Hr. split; cbn [fst snd].
   - intros ->. apply Hq. exact Hr.
@@ -630,6 +664,24 @@ Definition valid_reports (s : st) (p : pin) : Prop := forall r, In r (reports p)
 Lemma delivered_incl c p r : In r (delivered c p) -> In r (reports p).
 Proof. unfold delivered. destruct (dry c); [intros []|]. destruct (qcode p); auto; intros []. Qed.
 
+Lemma poll_ok_step c g s p x lax : WF g -> Inv g s -> valid_reports s p -> In x (inprog s) ->
+  (forall o, In (x, o) (delivered c p) -> quiet o = true \/ (lax = true /\ o = Some RUNNING)) ->
+  ok_step g x lax s (fst (poll c g s p)).
+Proof.
+  intros W I V Hx Hq. apply os_poll; [apply Inv_guard; auto|].
+  eapply Inv_rep_ok; eauto. intros r Hr. apply V. eapply delivered_incl; eauto.
+Qed.
+
+Lemma ok_step_sets g x lax s s' : Inv g s -> In x (inprog s) -> ok_step g x lax s s' ->
+  In x (inprog s') /\ ~ In x (completed s') /\ ~ In x (failed s') /\ ~ In x (cancelled s') /\ ~ In x (ready s').
+Proof.
+  intros I Hx [_ O2 O3 O4 O5 O6 _ _]. rewrite O2, O3, O4, O5, O6. splits; auto.
+  - intros H. exact (i_dj_ci g s I x H Hx).
+  - intros H. destruct (i_dj_fc g s I x (or_introl H)) as (_ & A & _). auto.
+  - intros H. destruct (i_dj_fc g s I x (or_intror H)) as (_ & A & _). auto.
+  - exact (i_dj_ir g s I x Hx).
+Qed.
+
 Theorem poll_frame c g s p x : WF g -> Inv g s -> valid_reports s p -> In x (inprog s) ->
   (forall o, In (x, o) (delivered c p) -> quiet o = true) ->
   let s' := fst (poll c g s p) in
@@ -637,15 +689,102 @@ Theorem poll_frame c g s p x : WF g -> Inv g s -> valid_reports s p -> In x (inp
   ~ In x (completed s') /\ ~ In x (failed s') /\ ~ In x (cancelled s') /\ ~ In x (ready s').
 Proof.
   intros W I V Hx Hq.
-  assert (O : ok_step g x s (fst (poll c g s p))).
-  { apply os_poll; [apply Inv_guard; auto|].
-    eapply Inv_rep_ok; eauto. intros r Hr. apply V. eapply delivered_incl; eauto. }
-  cbv zeta. destruct O as [O1 O2 O3 O4 O5 O6 _ _].
-  rewrite O1, O2, O3, O4, O5, O6. splits; auto.
-  - intros H. exact (i_dj_ci g s I x H Hx).
-  - intros H. destruct (i_dj_fc g s I x (or_introl H)) as (_ & A & _). auto.
-  - intros H. destruct (i_dj_fc g s I x (or_intror H)) as (_ & A & _). auto.
-  - exact (i_dj_ir g s I x Hx).
+  assert (O : ok_step g x false s (fst (poll c g s p))) by (apply poll_ok_step; auto).
+  cbv zeta. split; [exact (os_rec _ _ _ _ _ O) | eapply ok_step_sets; eauto].
+Qed.
+
+(** RUNNING reports: the tracked step x whose delivered entries are quiet or RUNNING, at least
+    one of them RUNNING, ends the poll with status RUNNING, the same job ids and restart
+    count, still tracked and in none of the resolved sets *)
+Lemma fold_reports_running c g x reps : Forall (rep_ok g x true) reps -> forall s cl ca,
+  x < length (recs s) -> ~ In x cl -> ~ In x ca ->
+  status (getrec s x) = RUNNING \/ In (x, Some RUNNING) reps ->
+  status (getrec (fst (fst (fold_left (handle_report_gen c g) reps (s, cl, ca)))) x) = RUNNING.
+Proof.
+  induction 1 as [|r reps Hr Hreps IH]; intros s cl ca Hl Hcl Hca H; cbn [fold_left].
+  - destruct H as [H|[]]. exact H.
+  - pose proof (os_handle_report g x true c s cl ca r Hr Hcl Hca) as A.
+    destruct (handle_report_gen c g (s, cl, ca) r) as [[s1 cl1] ca1] eqn:E. destruct A as (A1 & A2 & A3).
+    assert (L1 : length (recs s1) = length (recs s)).
+    { pose proof (os_rec _ _ _ _ _ A1) as R. clear - E. revert E. destruct r as [y o].
+      (* every branch of the dispatch keeps the number of records *)
+      assert (Lmfl : forall l t, length (recs (mark_failed_list l t)) = length (recs t)).
+      { unfold mark_failed_list. induction l as [|a l IHl]; intros t; cbn [fold_left]; [reflexivity|].
+        rewrite IHl. cbn. apply length_upd. }
+      assert (Lsa : forall n r t, length (recs (snd (submit_attempts g y r n t))) = length (recs t)).
+      { induction n as [|n IHn]; intros r t; [reflexivity|]. rewrite submit_attempts_S. cbv zeta.
+        set (t2 := if scheduled (attr g y) then _ else _).
+        assert (E2 : length (recs t2) = length (recs t)).
+        { subst t2. destruct r, (scheduled (attr g y)); cbn; rewrite ?length_upd; reflexivity. }
+        assert (E3 : length (recs (snd (next_sub t2))) = length (recs t2)) by (unfold next_sub; destruct (subs t2); reflexivity).
+        destruct (fst (next_sub t2)); cbn [snd].
+        - cbn. rewrite length_upd. congruence.
+        - rewrite IHn. cbn. congruence. }
+      assert (Ler : forall r t, length (recs (execute_record_gen c g y r t)) = length (recs t)).
+      { intros r t. unfold execute_record_gen.
+        set (t0 := if negb r then emit (EGen y) t else t).
+        assert (E0 : length (recs t0) = length (recs t)) by (subst t0; destruct (negb r); reflexivity).
+        destruct (dry c); [cbn; rewrite length_upd; exact E0|].
+        pose proof (Lsa (attempts c) r t0) as E1.
+        destruct (submit_attempts g y r (attempts c) t0) as [ok t1]. cbn [snd] in E1.
+        destruct ok.
+        - destruct (negb (scheduled (attr g y))); cbn; rewrite ?length_upd; congruence.
+        - rewrite Lmfl. cbn. congruence. }
+      destruct o as [v|]; [destruct v|]; cbn [handle_report_gen oeqb state_eqb]; intros E;
+        try (inversion E; subst; cbn; rewrite ?length_upd; reflexivity).
+      destruct (has_restart (attr g y) && negb (canceled s)).
+      - unfold mark_restart_gen in E.
+        destruct ((rlimit (attr g y) =? 0) || (restarts (getrec (rec_set_status y TIMEDOUT s) y) <? rlimit (attr g y)));
+          inversion E; subst; rewrite ?Ler; cbn; rewrite ?length_upd; reflexivity.
+      - inversion E; subst. cbn. rewrite length_upd. reflexivity. }
+    specialize (IH s1 cl1 ca1). rewrite L1 in IH. apply IH; auto.
+    destruct H as [H|[H|H]].
+    + left. pose proof (os_rec _ _ _ _ _ A1) as R. unfold recrel in R. destruct R as (_ & _ & [R|R]); congruence.
+    + left. subst r. cbn in E. inversion E; subst. rewrite getrec_set_status_eq by exact Hl. reflexivity.
+    + right. exact H.
+Qed.
+
+Theorem poll_running c g s p x : WF g -> Inv g s -> valid_reports s p -> In x (inprog s) ->
+  (forall o, In (x, o) (delivered c p) -> quiet o = true \/ o = Some RUNNING) ->
+  In (x, Some RUNNING) (delivered c p) ->
+  let s' := fst (poll c g s p) in
+  status (getrec s' x) = RUNNING /\ jobs (getrec s' x) = jobs (getrec s x) /\
+  restarts (getrec s' x) = restarts (getrec s x) /\ In x (inprog s') /\
+  ~ In x (completed s') /\ ~ In x (failed s') /\ ~ In x (cancelled s') /\ ~ In x (ready s').
+Proof.
+  intros W I V Hx Hq Hr.
+  assert (Hq' : forall o, In (x, o) (delivered c p) -> quiet o = true \/ (true = true /\ o = Some RUNNING)).
+  { intros o Ho. destruct (Hq o Ho); auto. }
+  assert (O : ok_step g x true s (fst (poll c g s p))) by (apply poll_ok_step; auto).
+  cbv zeta. pose proof (os_rec _ _ _ _ _ O) as R. unfold recrel in R. destruct R as (R1 & R2 & R3).
+  splits; auto; try (eapply ok_step_sets; eauto; fail).
+  (* the status: RUNNING after the dispatch, kept by the rest of the poll *)
+  assert (Hne : delivered c p <> []) by (intros E; rewrite E in Hr; destruct Hr).
+  assert (Hph : dry c = false -> qcode p <> QERROR).
+  { intros Hd E. unfold delivered in Hne. rewrite Hd, E in Hne. congruence. }
+  rewrite poll_phases by exact Hph. rewrite poll_phases in O by exact Hph.
+  set (s0 := at_query c s p) in *.
+  assert (RO : Forall (rep_ok g x true) (delivered c p)).
+  { eapply Inv_rep_ok; eauto. intros r Hr'. apply V. eapply delivered_incl; eauto. }
+  assert (G0 : guard g x s0).
+  { eapply guard_step; [apply Inv_guard; eauto | apply (os_at_query g x true c s p)]. }
+  assert (Hl : x < length (recs s0)).
+  { replace (length (recs s0)) with (length (recs s)) by (symmetry; f_equal; apply at_query_fields).
+    rewrite (i_len_recs g s I). apply (i_bound g s I). auto. }
+  pose proof (os_dispatch g x true c (delivered c p) s0 RO) as OD.
+  assert (SD : status (getrec (dispatch_gen c g (delivered c p) s0) x) = RUNNING).
+  { unfold dispatch_gen.
+    pose proof (fold_reports_running c g x (delivered c p) RO s0 [] [] Hl (fun f => f) (fun f => f) (or_intror Hr)) as F.
+    pose proof (os_fold_reports g x true c (delivered c p) RO s0 [] [] (fun f => f) (fun f => f)) as B.
+    destruct (fold_left (handle_report_gen c g) (delivered c p) (s0, [], [])) as [[s1 cl] ca]. cbn [fst] in F.
+    destruct B as (_ & B2 & B3).
+    pose proof (os_mark_failed_list g x true cl B2 s1) as M1.
+    pose proof (os_mark_cancelled_list g x true ca B3 (mark_failed_list cl s1)) as M2.
+    pose proof (os_rec _ _ _ _ _ (ok_step_trans g x true _ _ _ M1 M2)) as R. unfold recrel in R.
+    destruct R as (_ & _ & [R|R]); congruence. }
+  assert (GD : guard g x (dispatch_gen c g (delivered c p) s0)) by (eapply guard_step; eauto).
+  pose proof (os_stage_launch g x true c _ GD) as OS.
+  pose proof (os_rec _ _ _ _ _ OS) as R. unfold recrel in R. destruct R as (_ & _ & [R|R]); congruence.
 Qed.
 
 (** * Run-level corollaries: every executed poll of every run *)
@@ -873,7 +1012,7 @@ Proof.
     cbn [is_submit_or_gen].
     destruct kd, res as [j|]; in_cks H; auto.
     all: try (exfalso; destruct Hk as [-> | [-> | ->]]; discriminate).
-    all: try (match goal with E : negb (qcode_eqb (qcode p) QERROR) || dry c = false |- _ => destruct (T E) end; auto; fail).
+    all: try (match goal with E : negb _ || _ = false |- _ => destruct (T E) end; auto; fail).
     all: try (exfalso; exact H).
 Qed.
 
@@ -892,6 +1031,16 @@ Qed.
 Lemma zip_cons_nil {A B} (a : A) l : zip (a :: l) (@nil B) = [].
 Proof. reflexivity. Qed.
 
+Lemma pre_poll_prev p es m : prev (mb (pre_poll p es m)) = prev (mb m).
+Proof. unfold pre_poll. destruct (cancel_req p); reflexivity. Qed.
+
+Lemma pre_poll_viol p es m k : c20_code k -> ~ In k (viol m) -> ~ In k (viol (pre_poll p es m)).
+Proof.
+  intros Hk Hv. unfold pre_poll. destruct (cancel_req p); [|exact Hv]. cbn. rewrite in_app_iff.
+  intros [H|H]; [exact (Hv H)|]. apply In_ck in H. destruct H as [H _].
+  destruct Hk as [-> | [-> | ->]]; discriminate.
+Qed.
+
 Theorem monitor_c20_silent c g k : c20_code k -> forall ps s m,
   prev (mb m) = rows_of s -> ~ In k (viol m) ->
   ~ In k (viol (fold_left (step_poll c g) (zip ps (run c g s ps)) m)).
@@ -899,8 +1048,8 @@ Proof.
   intros Hk. induction ps as [|p ps IH]; intros s m Hp Hv; [exact Hv|].
   cbn [run]. destruct (poll c g s p) as [s1 r] eqn:E.
   set (o := (rev (evs s1), rows_of s1, r)).
-  set (m1 := fold_left (step_ev c g p) (rev (evs s1)) m).
-  assert (P1 : prev (mb m1) = rows_of s) by (unfold m1; rewrite prev_fold_ev; exact Hp).
+  set (m1 := fold_left (step_ev c g p) (rev (evs s1)) (pre_poll p (rev (evs s1)) m)).
+  assert (P1 : prev (mb m1) = rows_of s) by (unfold m1; rewrite prev_fold_ev, pre_poll_prev; exact Hp).
   assert (V1 : ~ In k (viol m1)).
   { unfold m1. clear P1 m1.
     assert (G : forall es m0, (forall e, In e es -> forall b, ~ In k (flags_ev c g p b e)) ->
@@ -908,7 +1057,7 @@ Proof.
     { induction es as [|e es IHes]; intros m0 He Hm0; cbn [fold_left]; [exact Hm0|].
       apply IHes; [intros e' He'; apply He; right; exact He'|].
       cbn. rewrite in_app_iff. intros [H|H]; [exact (Hm0 H)|]. exact (He e (or_introl eq_refl) _ H). }
-    apply G; [|exact Hv]. intros e He b Hin.
+    apply G; [|apply pre_poll_viol; assumption]. intros e He b Hin.
     destruct (flags_ev_c20 c g p b e k Hk Hin) as (_ & Hq & Hd & Hs).
     pose proof (poll_error_fields c g s p Hd Hq) as F. rewrite E in F. cbn [fst snd] in F.
     destruct F as (_ & _ & _ & _ & _ & _ & _ & _ & _ & _ & _ & F).
